@@ -601,3 +601,115 @@ pub fn coeffs(case: &Value, out: &mut Map<String, Value>) {
         }
     }
 }
+
+// ---------------------------------------------------------------- C06 exhaustive 8-bit alpha tables
+
+/// Runs multiply/divide over images that contain every (colour, alpha) pair, for every requested row
+/// width (so every lane / remainder / tail position), and *projects* the outputs to a table indexed by
+/// (colour, alpha): tab[c*256+a] = the output if it was the same everywhere, otherwise the pair is listed
+/// in `multi` with all outputs seen. No expected values are computed here.
+pub fn alpha_table(ctx: &mut crate::Ctx, case: &Value, out: &mut Map<String, Value>) {
+    use crate::content::{Layout, Placed};
+    use crate::exec::*;
+    let pt = pt_parse(case["pt"].as_str().unwrap());
+    let nc = ncomp(pt);
+    let what = case["what"].as_str().unwrap().to_string();
+    let cpu = parse_cpu(case["cpu"].as_str().unwrap());
+    let inplace = case["variant"].as_str().unwrap() == "inplace";
+    let api = case["api"].as_str().unwrap().to_string();
+    let threads = case.get("threads").and_then(|t| t.as_u64()).unwrap_or(1) as usize;
+    let widths: Vec<u32> = case["widths"].as_array().unwrap().iter().map(u32_of).collect();
+    let mut md = fir::MulDiv::new();
+    unsafe { md.set_cpu_extensions(cpu) };
+    let mut tab: Vec<i64> = vec![-1; 65536];
+    let mut multi: std::collections::BTreeMap<usize, Vec<i64>> = Default::default();
+    let mut atab: Vec<i64> = vec![-1; 256];
+    let mut amulti: std::collections::BTreeMap<usize, Vec<i64>> = Default::default();
+    let mut rets: Vec<String> = vec![];
+    for &w in &widths {
+        let h = (65536 + w - 1) / w;
+        let n = (w * h) as usize;
+        let mut data: Vec<i64> = Vec::with_capacity(n * nc);
+        for i in 0..n {
+            let j = i % 65536;
+            let (c, a) = ((j / 256) as i64, (j % 256) as i64);
+            if nc == 2 {
+                data.push(c);
+                data.push(a);
+            } else {
+                data.push(c);
+                data.push((c + 85) % 256);
+                data.push(255 - c);
+                data.push(a);
+            }
+        }
+        let bytes = vals_to_bytes(pt, &data);
+        let (sk, dk) = if api == "dyn" { ("image_ref", "slice") } else { ("typed_ref", "typed") };
+        let lay = |k: &str| Layout { kind: k.to_string(), pad: [0; 4], extra: 0, guard: 1 };
+        let mut dp: Placed = crate::content::place(pt, w, h, None, lay(dk), 0x1234 + w as u64);
+        let mut sp: Placed = crate::content::place(pt, w, h, None, lay(sk), 0x4321);
+        sp.write_logical(&bytes);
+        if inplace {
+            dp.write_logical(&bytes);
+        }
+        let pool = ctx.pool(threads);
+        let r = catch_unwind(AssertUnwindSafe(|| {
+            pool.install(|| {
+                let mut op = if what == "mul" { Op::Mul(&md) } else { Op::Div(&md) };
+                match (inplace, api.as_str()) {
+                    (false, "dyn") => exec2_dyn(&mut op, &mut sp, &mut dp),
+                    (false, _) => exec2_typed(&mut op, &mut sp, &mut dp),
+                    (true, "dyn") => exec1_dyn(&mut op, &mut dp),
+                    (true, _) => exec1_typed(&mut op, &mut dp),
+                }
+            })
+        }));
+        let ret = match r {
+            Ok(s) => s,
+            Err(e) => {
+                let m = panic_msg(e);
+                if m.starts_with("harness:") {
+                    panic!("{}", m);
+                }
+                format!("panic:{}", m)
+            }
+        };
+        if !rets.contains(&ret) {
+            rets.push(ret.clone());
+        }
+        if ret != "ok" {
+            continue;
+        }
+        let o = dp.logical_bytes();
+        for i in 0..n {
+            let a = data[i * nc + nc - 1] as usize;
+            for k in 0..nc - 1 {
+                let c = data[i * nc + k] as usize;
+                let v = o[i * nc + k] as i64;
+                let idx = c * 256 + a;
+                if tab[idx] == -1 {
+                    tab[idx] = v;
+                } else if tab[idx] != v {
+                    let e = multi.entry(idx).or_insert_with(|| vec![c as i64, a as i64, tab[idx]]);
+                    if !e[2..].contains(&v) {
+                        e.push(v);
+                    }
+                }
+            }
+            let va = o[i * nc + nc - 1] as i64;
+            if atab[a] == -1 {
+                atab[a] = va;
+            } else if atab[a] != va {
+                let e = amulti.entry(a).or_insert_with(|| vec![a as i64, atab[a]]);
+                if !e[1..].contains(&va) {
+                    e.push(va);
+                }
+            }
+        }
+    }
+    out.insert("ret".into(), json!(if rets.len() == 1 { rets[0].clone() } else { rets.join("|") }));
+    out.insert("tab".into(), json!(tab));
+    out.insert("multi".into(), json!(multi.values().collect::<Vec<_>>()));
+    out.insert("atab".into(), json!(atab));
+    out.insert("amulti".into(), json!(amulti.values().collect::<Vec<_>>()));
+}
